@@ -1,6 +1,6 @@
 use crate::metrics::Metrics;
 use crate::ActionOp;
-use crossbeam::channel::{self, Receiver, Sender, TrySendError};
+use crossbeam::channel::{self, Receiver, Sender, TryRecvError, TrySendError};
 use std::marker::PhantomData;
 use std::sync::Arc;
 
@@ -32,7 +32,10 @@ where
 {
     _name: String,
     sender: Sender<ActionOp<T>>,
-    receiver: Receiver<ActionOp<T>>,
+    /// the receiving side, kept only by `DropOldest` to remove the oldest item;
+    /// the other policies must not keep the channel connected once the consumer is gone,
+    /// otherwise a blocking send to an abandoned channel never returns
+    receiver: Option<Receiver<ActionOp<T>>>,
     policy: BackpressurePolicy,
     metrics: Option<Arc<dyn Metrics + Send + Sync>>,
     #[cfg(rs_store_verif)]
@@ -67,7 +70,7 @@ where
         let r = match self.policy {
             BackpressurePolicy::BlockOnFull => {
                 match self.sender.send(item).map_err(|e| SenderError::SendError(e.0)) {
-                    Ok(_) => Ok(self.receiver.len() as i64),
+                    Ok(_) => Ok(self.sender.len() as i64),
                     Err(e) => Err(e),
                 }
             }
@@ -79,7 +82,10 @@ where
                     #[cfg(dev)]
                     eprintln!("store: dropping the oldest item in channel");
                     // Remove the oldest item
-                    let _old = self.receiver.try_recv();
+                    let _old = match self.receiver.as_ref() {
+                        Some(receiver) => receiver.try_recv(),
+                        None => Err(TryRecvError::Empty),
+                    };
                     if let Some(metrics) = &self.metrics {
                         if let Ok(ActionOp::Action(action)) = _old.as_ref() {
                             metrics.action_dropped(Some(action));
@@ -94,7 +100,7 @@ where
                         0,
                     );
                     match self.sender.try_send(item).map_err(SenderError::TrySendError) {
-                        Ok(_) => Ok(self.receiver.len() as i64),
+                        Ok(_) => Ok(self.sender.len() as i64),
                         Err(e) => Err(e),
                     }
                 } else {
@@ -104,7 +110,7 @@ where
             BackpressurePolicy::DropLatest => {
                 // Try to send the item, if the queue is full, just ignore the item (drop the latest)
                 match self.sender.try_send(item).map_err(SenderError::TrySendError) {
-                    Ok(_) => Ok(self.receiver.len() as i64),
+                    Ok(_) => Ok(self.sender.len() as i64),
                     Err(err) => {
                         #[cfg(dev)]
                         eprintln!("store: dropping the latest item in channel");
@@ -125,7 +131,7 @@ where
         #[cfg(rs_store_verif)]
         crate::verif::pt("send.end", vsid, self.vid, None, r.is_ok() as i64);
         if let Some(metrics) = &self.metrics {
-            metrics.queue_size(self.receiver.len());
+            metrics.queue_size(self.sender.len());
         }
         r
     }
@@ -220,7 +226,10 @@ where
                 vid,
                 _name: name.to_string(),
                 sender,
-                receiver: receiver.clone(),
+                receiver: match policy {
+                    BackpressurePolicy::DropOldest => Some(receiver.clone()),
+                    _ => None,
+                },
                 policy,
                 metrics: metrics.clone(),
             },
